@@ -173,10 +173,15 @@ class Reader:
             args_pure = all(self.pure(a, env) for a in e.args) and all(self.pure(k.value, env) for k in e.keywords)
             if (isinstance(f, ast.Attribute) and f.attr == "exc_info" and isinstance(f.value, ast.Name)
                     and f.value.id == "sys" and "sys" not in env and not e.args and not e.keywords):
-                return ("excinfo",)
+                # inside a handler it describes the caught exception; anywhere else it is just a value
+                return ("excinfo",) if env.get("@handler") else ("pure",)
             if (isinstance(f, ast.Attribute) and f.attr == "as_filename" and self.self_attr(f.value, env, "trace")
                     and args_pure):
                 return ("tracercm",)
+            if (isinstance(f, ast.Name) and f.id == "isinstance" and f.id not in env and len(e.args) == 2
+                    and not e.keywords and self.sym(e.args[0], env) == ("exc",)):
+                # a question about the class of the caught exception (may be kept in a local before it is used)
+                return ("isinst", tuple(self.catch_names(e.args[1], env, what="isinstance")), False)
             if isinstance(f, ast.Name) and f.id in PURE_CALLS and f.id not in env and args_pure:
                 return ("pure",)
             return None
@@ -202,6 +207,8 @@ class Reader:
                 return None
             if isinstance(e.op, ast.Not) and v[0] == "const":
                 return ("const", not v[1])
+            if isinstance(e.op, ast.Not) and v[0] == "isinst":
+                return ("isinst", v[1], not v[2])
             return ("pure",)
         if isinstance(e, ast.BoolOp):
             vals = [self.sym(v, env) for v in e.values]
@@ -212,6 +219,10 @@ class Reader:
                 for v in vals[1:]:
                     out = (out and v[1]) if isinstance(e.op, ast.And) else (out or v[1])
                 return ("const", out)
+            # isinstance(e, A) or isinstance(e, B);  not isinstance(e, A) and not isinstance(e, B)  (De Morgan)
+            want_neg = isinstance(e.op, ast.And)
+            if all(v[0] == "isinst" and v[2] == want_neg for v in vals):
+                return ("isinst", tuple(c for v in vals for c in v[1]), want_neg)
             return ("pure",)
         if isinstance(e, ast.Compare):
             vals = [self.sym(v, env) for v in [e.left] + list(e.comparators)]
@@ -314,6 +325,8 @@ class Reader:
             return None
         selfs = [k for k, v in env.items() if v == ("self",)]
         for n in ast.walk(e):
+            if isinstance(n, ast.Attribute) and (n.attr in self.instance_assigned or "*" in self.instance_assigned):
+                return None               # stored on the instance somewhere: a fresh object does not tell
             if isinstance(n, ast.Name):
                 if n.id in env and n.id not in selfs:
                     return None
@@ -430,13 +443,19 @@ class Reader:
                 new[p.arg] = self.sym(d, {}) or ("pure",)
         return new
 
-    def inline(self, fn, call, env, stack, bound_self=True):
+    def inline(self, fn, call, env, stack, bound_self=True, closure_env=None):
         """-> (items, return value) of a helper call, or None when it cannot be inlined."""
         if fn.name in stack or len(stack) >= MAX_INLINE_DEPTH:
             return None
         new = self.bind_params(fn, call, env, bound_self)
         if new is None:
             return None
+        if closure_env is not None:              # a function defined inside the method sees the method's locals
+            if any(isinstance(n, (ast.Nonlocal, ast.Global)) for n in ast.walk(fn)):
+                return None
+            merged = {k: v for k, v in closure_env.items() if k != "@handler"}
+            merged.update(new)
+            new = merged
         if any(isinstance(n, (ast.Yield, ast.YieldFrom, ast.Await)) for n in ast.walk(fn)):
             return None
         if env.get("@handler"):
@@ -450,6 +469,12 @@ class Reader:
         target = None
         if isinstance(f, ast.Attribute) and self.is_self(f.value, env):
             target = f.attr
+        elif (isinstance(f, ast.Attribute) and isinstance(f.value, ast.Name) and f.value.id == self.class_name
+              and f.value.id not in env and call.args and self.is_self(call.args[0], env)):
+            # Sandbox._helper(self, ...) is self._helper(...)
+            target = f.attr
+            call = ast.Call(func=f, args=list(call.args[1:]), keywords=call.keywords)
+            ast.copy_location(call, f)
         elif isinstance(f, ast.Name) and env.get(f.id, ("",))[0] == "method":
             target = env[f.id][1]                    # a bound method held in a local
         if target is not None:
@@ -472,6 +497,8 @@ class Reader:
                 if r is not None:
                     return r
             return None
+        if isinstance(f, ast.Name) and env.get(f.id, ("",))[0] == "func":
+            return self.inline(env[f.id][1], call, env, stack, bound_self=False, closure_env=env[f.id][2])
         if isinstance(f, ast.Name) and f.id not in env:
             if f.id == "exec" and "exec" not in self.module_bound:
                 if all(self.pure(a, env) for a in call.args) and not call.keywords:
@@ -532,8 +559,21 @@ class Reader:
             return [self.unknown(st, fname)]
         if self.is_bump(st, env):
             return [acts_item("bumpContextId")]
+        if (isinstance(st, ast.Assign) and len(st.targets) == 1 and self.self_attr(st.targets[0], env)
+                and st.targets[0].attr in ("exception", "feedback")
+                and isinstance(st.value, ast.Constant) and st.value.value is None):
+            # `clear_exception()` written out: the exception slot is emptied (the sandbox's `feedback` attribute is
+            # not part of the model)
+            return [acts_item("clearException" if st.targets[0].attr == "exception" else "pure")]
         if isinstance(st, (ast.Assign, ast.AnnAssign)) and getattr(st, "value", None) is not None:
             targets = st.targets if isinstance(st, ast.Assign) else [st.target]
+            if isinstance(st.value, ast.Lambda) and len(targets) == 1 and isinstance(targets[0], ast.Name):
+                fn = ast.FunctionDef(name="<lambda>", args=st.value.args, body=[ast.Return(value=st.value.body)],
+                                     decorator_list=[], returns=None, type_comment=None)
+                ast.copy_location(fn, st.value)
+                ast.copy_location(fn.body[0], st.value.body)
+                env[targets[0].id] = ("func", fn, env)
+                return [acts_item("pure")]
             r = self.value_items(st.value, env, fname, stack)
             if r is None:
                 return [self.unknown(st, fname)]
@@ -572,8 +612,9 @@ class Reader:
                     if term is None and [a for a in flat if a != "pure"] == ["exec"]:
                         return [acts_item("tracedExec")]
             return [self.unknown(st, fname)]
-        if isinstance(st, ast.FunctionDef):
-            return [self.unknown(st, fname)]
+        if isinstance(st, ast.FunctionDef) and not st.decorator_list:
+            env[st.name] = ("func", st, env)     # a local helper: inlined where it is called
+            return []
         return [self.unknown(st, fname)]
 
     def block(self, stmts, env, fname, stack, allow_return):
@@ -633,25 +674,10 @@ class Reader:
         if not isinstance(st, ast.If):
             return None
 
-        def classes_of(t):
-            if (isinstance(t, ast.Call) and isinstance(t.func, ast.Name) and t.func.id == "isinstance"
-                    and "isinstance" not in env and len(t.args) == 2 and not t.keywords
-                    and self.sym(t.args[0], env) == ("exc",)):
-                return self.catch_names(t.args[1], env, what="isinstance")
-            if isinstance(t, ast.BoolOp) and isinstance(t.op, ast.Or):
-                out = []
-                for v in t.values:
-                    sub = classes_of(v)
-                    if sub is None:
-                        return None
-                    out += sub
-                return out
-            return None
-        t, neg = st.test, False
-        while isinstance(t, ast.UnaryOp) and isinstance(t.op, ast.Not):
-            t, neg = t.operand, not neg
-        cs = classes_of(t)
-        return None if cs is None else (cs, neg)
+        v = self.sym(st.test, env)
+        if v is not None and v[0] == "isinst":
+            return list(v[1]), v[2]
+        return None
 
     def expand_handler(self, stmts, env, fname, stack, catch, known_not):
         """One `except <catch>` body -> the clauses it is equivalent to: [(catch name, items)]."""
@@ -760,17 +786,6 @@ def to_parts(items, fill, notes):
     if len(tries) > 1:
         notes.append("second try statement")
     return parts
-
-
-def all_unknown_items(items):
-    for it in items:
-        if it.kind == "unknown":
-            yield it
-        elif it.kind == "try":
-            for sub in (it.body, it.orelse, it.final):
-                yield from all_unknown_items(sub)
-            for _, its in it.handlers:
-                yield from all_unknown_items(its)
 
 
 # ----------------------------------------------------------------------------------------------------------------
@@ -1024,6 +1039,16 @@ def probe_execute(mock, module_obj, module_file=None):
             return self
 
         @property
+        def exception(self):
+            return self.__dict__.get("_verif_exception")
+
+        @exception.setter
+        def exception(self, value):
+            self.__dict__["_verif_exception"] = value
+            if state["log"] is not None:
+                log("clearException" if value is None else "unknown")
+
+        @property
         def _next_context_id(self):
             return self.__dict__.get("_verif_next_context_id", 0)
 
@@ -1039,7 +1064,13 @@ def probe_execute(mock, module_obj, module_file=None):
 
     runs = []
     keep = (sys.stdout, time.sleep, sys.gettrace())
+    # `Sandbox._stop_mocking(self, ...)` (class-qualified call) must reach the stubs too: for the duration of the
+    # measurement the stubs also sit on the class itself
+    stubbed = ("clear_exception", "_start_mocking", "_stop_mocking", "_stop_patches", "_capture_exception")
+    originals = {n: Sandbox.__dict__[n] for n in stubbed if n in Sandbox.__dict__}
     try:
+        for n in originals:
+            setattr(Sandbox, n, ProbeSandbox.__dict__[n])
         for sc in scenarios():
             report = Report()
             report.contextualize(Submission(main_code="x = 1\n"))
@@ -1090,9 +1121,10 @@ def probe_execute(mock, module_obj, module_file=None):
             events = list(state["log"])
             state["log"] = None
             after = {k: _shallow(v) for k, v in vars(sb).items()}
-            logged = {"_context", "_verif_next_context_id", "data", "trace"}
+            logged = {"_context", "_verif_next_context_id", "_verif_exception", "data", "trace"}
             unlogged = sorted(k for k in set(before) | set(after)
-                              if k not in logged and before.get(k) != after.get(k))
+                              if k not in logged and before.get(k) != after.get(k)
+                              and not (k == "feedback" and getattr(sb, "feedback", 0) is None))
             ga = (sys.stdout, time.sleep, dict(sys.modules), dict(builtins.__dict__))
             if ga[0] is not globals_before[0]:
                 unlogged.append("sys.stdout")
@@ -1105,6 +1137,8 @@ def probe_execute(mock, module_obj, module_file=None):
             runs.append({"name": sc["name"], "sig": sc["sig"], "events": events, "outcome": outcome,
                          "lines": lines, "unlogged": unlogged})
     finally:
+        for n, f in originals.items():
+            setattr(Sandbox, n, f)
         sys.stdout, time.sleep = keep[0], keep[1]
         sys.settrace(keep[2])
     return {"runs": runs}
